@@ -545,8 +545,12 @@ class relativedelta(object):
                 self.microsecond == other.microsecond)
 
     def __hash__(self):
+        if self.weekday:
+            weekday = (self.weekday.weekday, self.weekday.n or 1)
+        else:
+            weekday = None
         return hash((
-            self.weekday,
+            weekday,
             self.years,
             self.months,
             self.days,
